@@ -65,7 +65,7 @@ def values(tier: str, seed: int) -> list[int]:
             vs.add((1 << k) - 1)
             vs.add(-(1 << k) - 1)
     n = 10 if tier == "quick" else 600
-    while len(vs) < (52 if tier == "quick" else 900):
+    while len(vs) < (52 if tier == "quick" else 460):
         bits = rng.choice([8, 30, 53, 62, 63, 64, 64, 65, 66, 72, 80])
         vs.add(rng.getrandbits(bits) * rng.choice([1, -1]))
         n -= 1
